@@ -173,6 +173,29 @@ def expr_report(obj, seed: int, with_value: bool) -> dict:
     return rep
 
 
+def parameter_access(pv) -> list:
+    """What the public interface of a ParameterValues mapping answers: look-up by symbol,
+    by name and by position, membership, get(); a loaded mapping must answer the same
+    (an attribute that `==` does not look at can still be lost in the pickle)."""
+    out = []
+
+    def probe(fn):
+        try:
+            return repr(fn())
+        except Exception as exc:  # noqa: BLE001
+            return f"raised {type(exc).__name__}"
+
+    keys = list(pv.keys())
+    for i, k in enumerate(keys):
+        name = getattr(k, "name", str(k))
+        out.append([name, probe(lambda k=k: pv[k]), probe(lambda name=name: pv[name]), probe(lambda i=i: pv[i]),
+                    probe(lambda name=name: name in pv), probe(lambda k=k: k in pv),
+                    probe(lambda name=name: pv.get(name, "<absent>") if hasattr(pv, "get") else None)])
+    out.append(["<unknown>", probe(lambda: pv["no such parameter"]), probe(lambda: "no such parameter" in pv),
+                probe(lambda: len(pv))])
+    return out
+
+
 def model_report(model, events, seed: int, with_value: bool) -> dict:
     import sympy as sp  # noqa: PLC0415
 
@@ -185,6 +208,7 @@ def model_report(model, events, seed: int, with_value: bool) -> dict:
         "intensity": d(model.intensity),
         "amplitudes": [[d(k), d(v)] for k, v in model.amplitudes.items()],
         "parameter_defaults": [[sp.srepr(k), repr(v), type(v).__name__] for k, v in model.parameter_defaults.items()],
+        "parameter_access": parameter_access(model.parameter_defaults),
         "kinematic_variables": [[sp.srepr(k), d(v)] for k, v in model.kinematic_variables.items()],
         "components": [[k, d(v)] for k, v in model.components.items()],
         "types": [type(model).__name__, type(model.amplitudes).__name__, type(model.parameter_defaults).__name__,
@@ -497,6 +521,8 @@ def same_process_model_problems(model, loaded) -> list[str]:
             problems.append(f"{name}(type {type(b).__name__})")
     if not (model == loaded):
         problems.append("model(==)")
+    if parameter_access(model.parameter_defaults) != parameter_access(loaded.parameter_defaults):
+        problems.append("parameter_defaults(look-up by name / position / membership)")
     return problems
 
 
